@@ -43,6 +43,7 @@ import (
 	"github.com/nyaruka/goflow/flows"
 	"github.com/nyaruka/goflow/flows/engine"
 	"github.com/nyaruka/goflow/utils"
+	"github.com/shopspring/decimal"
 
 	"verifharness/pkg/hx"
 )
@@ -189,6 +190,55 @@ func evalReal(env envs.Environment, q *contactql.ContactQuery, c *flows.Contact)
 		os.Exit(3)
 	}
 	return "", ""
+}
+
+// ---- stored contact numbers against the exponent bound ------------------------------------------------------------
+
+// JSON texts of a contact's number field value: written out in full (short and very long), exponent notation at and
+// beyond the bound, quoted
+var storedTexts = []string{"36", "-0.50", "1e1000", "1e1001", "1E-1000", "1E-1001", `"1e1000"`, `"1e1001"`, "5e999", "12345e996", "12345e997",
+	"0." + strings.Repeat("0", 1200) + "1", "1" + strings.Repeat("0", 1500), "0." + strings.Repeat("3", 999), "0." + strings.Repeat("3", 1001),
+	"1e" + strings.Repeat("0", 1100) + "1001", "1.5e-1203"}
+
+type storedObs struct {
+	Text     string
+	Len      int
+	Exp      int32
+	Accepted bool
+}
+
+var storedTable []storedObs
+
+// what the real flows.ReadContact does with each stored text; the model's stored_number_ok is compared with it in every
+// world (w_stored), and the bound the cost argument rests on is a gate here: an accepted number must have
+// |exponent| <= max(1000, length of the text)
+func observeStoredNumbers(res *hx.Result) {
+	env := envs.NewBuilder().Build()
+	sa, err := engine.NewSessionAssets(env, mustSource(`{"fields":[{"uuid":"f0000000-0000-4000-8000-000000000000","key":"age","name":"Age","type":"number"}]}`), nil)
+	if err != nil {
+		panic(err)
+	}
+	for _, txt := range storedTexts {
+		raw := strings.Trim(txt, `"`)
+		d, err := decimal.NewFromString(raw)
+		if err != nil {
+			continue
+		}
+		_, rerr := flows.ReadContact(sa, []byte(`{"uuid": "c0000000-0000-4000-8000-000000000000", "status": "active", "created_on": "2020-01-01T00:00:00Z", "fields": {"age": {"text": "x", "number": `+txt+`}}}`), assets.IgnoreMissing)
+		ob := storedObs{Text: txt, Len: len(txt), Exp: d.Exponent(), Accepted: rerr == nil}
+		storedTable = append(storedTable, ob)
+		res.OracleChecks++
+		lim := int32(max(1000, len(txt)))
+		if ob.Accepted && (ob.Exp < -lim || ob.Exp > lim) {
+			shown := txt
+			if len(shown) > 40 {
+				shown = shown[:40] + "..."
+			}
+			res.Fail("hang:eval:contact-number-exponent-bound", map[string]any{"stored_number": shown, "length": len(txt), "exponent": ob.Exp},
+				fmt.Sprintf("flows.ReadContact accepts the stored number %s (%d bytes) whose decimal exponent %d is beyond max(1000, length): comparing it costs 10^|exponent|", shown, len(txt), ob.Exp))
+		}
+		res.Dist(fmt.Sprintf("stored-number:accepted=%v", ob.Accepted))
+	}
 }
 
 // ---- probes for evaluations that do not return, each in a worker subprocess that can be killed -------------------
@@ -885,7 +935,10 @@ func (w *world) coq(name string) string {
 	}
 	fmt.Fprintf(&sb, " w_fields := [%s];\n", strings.Join(fs, "; "))
 	fmt.Fprintf(&sb, " w_groups := %s;\n", hx.List(hx.SortedKeys(w.groups), hx.Str))
-	fmt.Fprintf(&sb, " w_flows := %s |}.\n", hx.List(hx.SortedKeys(w.flows), hx.Str))
+	fmt.Fprintf(&sb, " w_flows := %s;\n", hx.List(hx.SortedKeys(w.flows), hx.Str))
+	fmt.Fprintf(&sb, " w_stored := %s |}.\n", hx.List(storedTable, func(x storedObs) string {
+		return fmt.Sprintf("(%d%%N, %s, %s)", x.Len, zstr(fmt.Sprint(x.Exp)), hx.Bool(x.Accepted))
+	}))
 	return sb.String()
 }
 
@@ -1270,6 +1323,7 @@ func main() {
 		res.Fail("hang:eval:in-process", map[string]any{"query_text": text}, fmt.Sprintf("EvaluateQuery(%q) had not returned after %s", text, evalTimeout))
 		res.Write(o)
 	}
+	observeStoredNumbers(res)
 	if onlyWorld < 0 {
 		runHangProbes(res, root.Fork("hang"))
 	}
